@@ -1396,9 +1396,10 @@ class Gen:
     loop = ["for", var, start, stop, step, [["=", tgt, e]]]
     if step < 0 and self.k.get("for_full_desc"):
       # count down to index 0 inclusive ( range(n-1, -1, -1) ), or in steps of two with the other elements assigned one by one
-      st2 = rng.choice([-1, -2, -2, -3])          # the type checker wants a non-negative end value: stop at 0 (exclusive)
-      loop = ["for", var, n - 1, 0, st2, [["=", tgt, e]]]
-      extra = [["=", concretize(tgt, {var: j}), subst_expr(e, {var: j})] for j in range(n) if j not in range(n - 1, 0, st2)]
+      st2 = rng.choice([-1, -2, -2, -3, -3, -4])  # the type checker wants a non-negative end value: stop at 0, 1 or 2 (exclusive)
+      end_ = rng.choice([0, 0, 1, 2]) if n >= 4 else 0
+      loop = ["for", var, n - 1, end_, st2, [["=", tgt, e]]]
+      extra = [["=", concretize(tgt, {var: j}), subst_expr(e, {var: j})] for j in range(n) if j not in range(n - 1, end_, st2)]
       return ["seq", extra + [loop]] if extra else loop
     if step < 0:
       return ["if", ["c", 1, 1], [["=", concretize(tgt, {var: 0}), subst_expr(e, {var: 0})], loop], []] if False else \
@@ -1482,6 +1483,17 @@ class Gen:
       if (t is not None and not isinstance(t, int)) or p.get("struct_target"):
         return make_explicit(e, w)          # a struct-typed target takes Bits (or structs) only, never a plain int
       return e
+    if kind == "comb" and k.get("p_branchy") and srcs and rng.random() < k["p_branchy"]:
+      # a decoder: 20-25 way if / elif chain on one selector (schedulers that weigh blocks by their number of branches treat such
+      # a block specially)
+      n = rng.randrange(20, 26)
+      sel = self._explicit(5, list(srcs), 1)
+      kc = lambda: ["c", rng.getrandbits(min(w, 8)), w]          # explicitly sized constants (a struct-typed target takes no plain int)
+      node = [["=", p, kc()]]
+      for i in reversed(range(n)):
+        node = [["if", ["cmp", "eq", sel, ["c", i, None]], [["=", p, fit(mk()) if rng.random() < 0.3 else kc()]], node]]
+      self.design.setdefault("stats", {}).setdefault("branchy_blocks", 0); self.design["stats"]["branchy_blocks"] += 1
+      return node
     if rng.random() < k["p_if"] and srcs:
       c = self.cond(list(srcs), 2)
       if kind == "ff" and rng.random() < 0.5:
